@@ -415,6 +415,171 @@ Section Sound.
           replace (flag_value SW c idx) with (xflag W c idx) in E by (destruct c; reflexivity).
           rewrite F in E. now apply (Hv fu).
     Qed.
+
+    (* ------------------------------------------------------------ statements *)
+
+    Definition td_ok (td : list (string * bool * etype)) : Prop :=
+      Forall (fun x => ~ is_input (fst (fst x))) td.
+
+    Lemma td_ok_dels td et : td_ok td -> Forall (fun s => match s with TDel x _ => ~ is_input x | _ => True end) (dels td et).
+    Proof.
+      unfold dels, td_ok. intros H. induction td as [|x r IH]; cbn; auto.
+      inversion H; subst. destruct (etype_eqb (snd x) et); cbn; auto.
+    Qed.
+
+    Lemma simples_dels_ok ds tail result (Q : sval V * bool -> Prop) :
+      Forall (fun s => match s with TDel x _ => ~ is_input x | _ => False end) ds ->
+      mok n (exec_simples O alg W rec which idx tail result) Q ->
+      mok n (exec_simples O alg W rec which idx (ds ++ tail) result) Q.
+    Proof.
+      intros H Ht. induction H as [|d r Hd Hr IH]; cbn [app]; auto.
+      destruct d; try contradiction. cbn [exec_simples].
+      eapply mok_bind; [apply mok_del; exact Hd|]. intros _ _. exact IH.
+    Qed.
+
+    Lemma dels_are_dels td et : td_ok td ->
+      Forall (fun s => match s with TDel x _ => ~ is_input x | _ => False end) (dels td et).
+    Proof.
+      unfold dels, td_ok. intros H. induction td as [|x r IH]; cbn; auto.
+      inversion H; subst. destruct (etype_eqb (snd x) et); cbn; auto.
+    Qed.
+
+    (** [result = e ; del_... ] inside an [if] *)
+    Lemma simples_assign_ok t td et result (P : sval V -> Prop) tail (b : bool) :
+      td_ok td ->
+      (tail = [] /\ b = false \/ tail = [TReturn] /\ b = true) ->
+      mok n (eval_texpr O alg W rec which idx result t) P ->
+      mok n (exec_simples O alg W rec which idx (TAssign t :: dels td et ++ tail) result)
+          (fun x => P (fst x) /\ snd x = b).
+    Proof.
+      intros Htd Htail Ht. cbn [exec_simples].
+      eapply mok_bind; [exact Ht|]. intros v Hv.
+      apply simples_dels_ok; [now apply dels_are_dels|].
+      destruct Htail as [[-> ->]|[-> ->]]; cbn [exec_simples]; apply mok_ret; auto.
+    Qed.
+
+    Lemma stmts_dels_ok ds more result (Q : sval V -> Prop) :
+      Forall (fun s => match s with TDel x _ => ~ is_input x | _ => False end) ds ->
+      mok n (exec_stmts O alg W rec which idx more result) Q ->
+      mok n (exec_stmts O alg W rec which idx (map TS ds ++ more) result) Q.
+    Proof.
+      intros H Hm. induction H as [|d r Hd Hr IH]; cbn [app map]; auto.
+      destruct d; try contradiction. cbn [exec_stmts exec_simples].
+      eapply mok_bind with (P := fun x => x = (result, false)).
+      - eapply mok_bind; [apply mok_del; exact Hd|]. intros _ _. now apply mok_ret.
+      - intros x ->. cbn [snd fst]. exact IH.
+    Qed.
+
+    Lemma stmts_assign_ok t more result (P Q : sval V -> Prop) :
+      mok n (eval_texpr O alg W rec which idx result t) P ->
+      (forall v, P v -> mok n (exec_stmts O alg W rec which idx more v) Q) ->
+      mok n (exec_stmts O alg W rec which idx (TS (TAssign t) :: more) result) Q.
+    Proof.
+      intros Ht Hm. cbn [exec_stmts exec_simples].
+      eapply mok_bind with (P := fun x => P (fst x) /\ snd x = false).
+      - eapply mok_bind; [exact Ht|]. intros v Hv. apply mok_ret. auto.
+      - intros [v b] [Hv Hb]. cbn [fst snd] in *. subst b. now apply Hm.
+    Qed.
+
+    Lemma stmts_if_ok t body more result (P Q : sval V -> Prop) (b : bool) :
+      test_holds W idx t = true ->
+      mok n (exec_simples O alg W rec which idx body result) (fun x => P (fst x) /\ snd x = b) ->
+      (forall v, P v -> if b then Q v else mok n (exec_stmts O alg W rec which idx more v) Q) ->
+      mok n (exec_stmts O alg W rec which idx (TIf t body :: more) result) Q.
+    Proof.
+      intros Ht Hb Hm. cbn [exec_stmts]. rewrite Ht.
+      eapply mok_bind; [exact Hb|]. intros [v b'] [Hv Hb']. cbn [fst snd] in *. subst b'.
+      specialize (Hm v Hv). destruct b; [now apply mok_ret | exact Hm].
+    Qed.
+
+    Lemma stmts_if_skip t body more result (Q : sval V -> Prop) :
+      test_holds W idx t = false ->
+      mok n (exec_stmts O alg W rec which idx more result) Q ->
+      mok n (exec_stmts O alg W rec which idx (TIf t body :: more) result) Q.
+    Proof. intros Ht Hm. cbn [exec_stmts]. now rewrite Ht. Qed.
+
+    Definition body_post (name : string) (lines : list line) (result v : sval V) : Prop :=
+      forall fu racc w, den O result == racc ->
+        ibody O SW (spec fu) idx name lines racc = Some w -> den O v == w.
+
+    Lemma lines_ok name td lines :
+      td_ok td ->
+      forall result,
+        mok n (exec_stmts O alg W rec which idx (flat_map (cline name td) lines) result)
+            (body_post name lines result).
+    Proof.
+      pose proof (vl_equiv L) as EQ.
+      intros Htd. induction lines as [|l r IH]; intros result; cbn [flat_map].
+      - cbn [exec_stmts]. apply mok_ret. intros fu racc w HR E. cbn in E. inversion E; subst. exact HR.
+      - destruct l as [c e|h].
+        + destruct c; cbn [cline].
+          * (* default *)
+            cbn [map app]. try rewrite <- app_comm_cons.
+            eapply stmts_assign_ok; [apply eval_texpr_ok; reflexivity|].
+            intros v Hv. apply stmts_dels_ok; [now apply dels_are_dels|].
+            eapply mok_weaken; [apply IH|]. intros v' Hv' fu racc w HR E. cbn [ibody] in E.
+            destruct (iexpr O SW (spec fu) idx e) as [x|] eqn:Ex; cbn in E; [|discriminate].
+            apply (Hv' fu (vadd O racc x) w); [|exact E].
+            destruct (ctop_sound L SW (spec fu) idx sfn_proper (den O result) e Ex) as (y & Ey & Hy).
+            rewrite (Hv fu y Ey), Hy, HR. reflexivity.
+          * (* diagonal *)
+            cbn [app]. destruct (Nat.eqb (idx_i idx) (idx_j idx)) eqn:D.
+            -- eapply stmts_if_ok with (b := false) (P := texpr_post (den O result) _).
+               ++ exact D.
+               ++ rewrite <- (app_nil_r (dels td ETDiag)).
+                  apply simples_assign_ok; auto. apply eval_texpr_ok. reflexivity.
+               ++ intros v Hv. eapply mok_weaken; [apply IH|]. intros v' Hv' fu racc w HR E.
+                  cbn [ibody] in E. rewrite D in E.
+                  destruct (iwrapped O SW (spec fu) idx "diag" e) as [x|] eqn:Ex; cbn in E; [|discriminate].
+                  apply (Hv' fu (vadd O racc x) w); [|exact E].
+                  apply Nat.eqb_eq in D.
+                  destruct (cwrap_sound L SW (spec fu) idx sfn_proper (den O result) (dg := true) "diag" e (fun _ => D) Ex) as (y & Ey & Hy).
+                  rewrite (Hv fu y Ey), Hy, HR. reflexivity.
+            -- apply stmts_if_skip; [exact D|].
+               eapply mok_weaken; [apply IH|]. intros v' Hv' fu racc w HR E.
+               cbn [ibody] in E. rewrite D in E. eauto.
+          * (* offdiagonal *)
+            cbn [app]. destruct (Nat.eqb (idx_i idx) (idx_j idx)) eqn:D.
+            -- apply stmts_if_skip; [cbn; now rewrite D|].
+               destruct (xw_hasoff W) eqn:HO.
+               ++ eapply stmts_if_ok with (b := false) (P := texpr_post (den O result) _).
+                  ** cbn. now rewrite HO, D.
+                  ** rewrite <- (app_nil_r (dels td ETOffdiag)).
+                     apply simples_assign_ok; auto. apply eval_texpr_ok. reflexivity.
+                  ** intros v Hv. eapply mok_weaken; [apply IH|]. intros v' Hv' fu racc w HR E.
+                     cbn [ibody] in E. rewrite D in E. cbn [negb] in E. cbn [sw_hasoff SW] in E. rewrite HO in E.
+                     destruct (iwrapped O SW (spec fu) idx "offdiag" e) as [x|] eqn:Ex; cbn in E; [|discriminate].
+                     apply (Hv' fu (vadd O racc x) w); [|exact E].
+                     destruct (cwrap_sound L SW (spec fu) idx sfn_proper (den O result) (dg := false) "offdiag" e ltac:(discriminate) Ex) as (y & Ey & Hy).
+                     rewrite (Hv fu y Ey), Hy, HR. reflexivity.
+               ++ apply stmts_if_skip; [cbn; now rewrite HO|].
+                  eapply mok_weaken; [apply IH|]. intros v' Hv' fu racc w HR E.
+                  cbn [ibody] in E. rewrite D in E. cbn [negb] in E. cbn [sw_hasoff SW] in E. rewrite HO in E. eauto.
+            -- eapply stmts_if_ok with (b := false) (P := texpr_post (den O result) _).
+               ++ cbn. now rewrite D.
+               ++ rewrite <- (app_nil_r (dels td ETOffdiag)).
+                  apply simples_assign_ok; auto. apply eval_texpr_ok. reflexivity.
+               ++ intros v Hv. apply stmts_if_skip; [cbn; rewrite D; now destruct (xw_hasoff W)|].
+                  eapply mok_weaken; [apply IH|]. intros v' Hv' fu racc w HR E.
+                  cbn [ibody] in E. rewrite D in E. cbn [negb] in E.
+                  destruct (iexpr O SW (spec fu) idx e) as [x|] eqn:Ex; cbn in E; [|discriminate].
+                  apply (Hv' fu (vadd O racc x) w); [|exact E].
+                  destruct (ctop_sound L SW (spec fu) idx sfn_proper (den O result) e Ex) as (y & Ey & Hy).
+                  rewrite (Hv fu y Ey), Hy, HR. reflexivity.
+        + (* marker *)
+          cbn [cline app]. destruct (Nat.ltb (idx_j idx) (idx_i idx)) eqn:Lw.
+          * eapply stmts_if_ok with (b := true) (P := texpr_post (den O result) _).
+            -- exact Lw.
+            -- apply simples_assign_ok; auto. apply eval_texpr_ok. reflexivity.
+            -- intros v Hv fu racc w HR E. cbn [ibody] in E. rewrite Lw in E.
+               destruct (spec fu (KN name) (transp idx)) as [a|] eqn:Ea; cbn in E; [|discriminate].
+               inversion E; subst.
+               destruct (cmarker_sound L SW (spec fu) idx (den O result) name h Ea) as (y & Ey & Hy).
+               rewrite <- HR, <- Hy. apply (Hv fu). destruct h; exact Ey.
+          * apply stmts_if_skip; [exact Lw|].
+            eapply mok_weaken; [apply IH|]. intros v' Hv' fu racc w HR E.
+            cbn [ibody] in E. rewrite Lw in E. eauto.
+    Qed.
     End Body.
   End WithRec.
 End Sound.
